@@ -98,7 +98,11 @@ func Drive(id, tier string, seed int64) int {
 		fmt.Println("keeping work dir", workRoot)
 	}
 
-	results, nrec, exits := RunAll(p, plan, Par(), workRoot)
+	par := Par()
+	if pp, ok := p.(interface{ Parallelism() int }); ok && os.Getenv("VERIF_PAR") == "" {
+		par = pp.Parallelism()
+	}
+	results, nrec, exits := RunAll(p, plan, par, workRoot)
 	return Report(p, plan, tier, seed, results, nrec, exits, time.Since(t0))
 }
 
